@@ -40,6 +40,9 @@ func (s *scripted) fn(kind string) router.Factory {
 			return nil, status.Error(codes.Unavailable, "cannot reach the node of "+name)
 		case "wrapped-status-error":
 			return nil, fmt.Errorf("dialling %s: %w", name, status.Error(codes.DeadlineExceeded, "too slow"))
+		case "half-built":
+			// a client was constructed but setting it up failed: an error is an error, whatever comes with it
+			return &client{tag: fmt.Sprintf("%s-%s-halfbuilt", kind, name)}, errors.New("dial failed for " + name)
 		}
 		return nil, nil
 	}
@@ -55,7 +58,7 @@ func TestRouterRegistry(t *testing.T) {
 		beh := func(label string) map[string]string {
 			m := map[string]string{}
 			for _, n := range names {
-				m[n] = rapid.SampledFrom([]string{"client", "client", "nil", "error", "status-error", "wrapped-status-error"}).Draw(t, label+n)
+				m[n] = rapid.SampledFrom([]string{"client", "client", "nil", "error", "status-error", "wrapped-status-error", "half-built"}).Draw(t, label+n)
 			}
 			return m
 		}
